@@ -281,6 +281,15 @@ def corpus():
         gram.Spec([C("A0", True, None), C("Leaf", False, 0, []),
                    C("Span", False, 0, [("base", ("ann", "int", ("intRange", 5, 6))), ("scale", ("ann", "int", ("intRange", 1, 2))),
                                         ("value", ("ann", "int", ("depIntRangeSpan", "scale", "base")))])], 0, [1, 2]),
+        # TWO refinements that depend on a sibling of the same name and base type but compute different ranges (b in a..2 / b in 0..a)
+        gram.Spec([C("A0", True, None), C("Leaf", False, 0, []),
+                   C("Down", False, 0, [("a", ("ann", "int", ("intRange", 0, 1))), ("b", ("ann", "int", ("depIntRangeLo", "a", 2)))]),
+                   C("Up", False, 0, [("a", ("ann", "int", ("intRange", 0, 1))), ("b", ("ann", "int", ("depIntRangeHi", 0, "a")))])], 0, [1, 2, 3]),
+        # a plain list field declared BEFORE a recursive sibling, in both depth modes (what the list costs is charged to the list alone)
+        gram.Spec([C("A0", True, None), C("Leaf", False, 0, []), C("Wrap", False, 0, [("e", ("cls", 0))]),
+                   C("Bag", False, 0, [("items", ("list", "bool")), ("rest", ("cls", 0))])], 0, [1, 2, 3], True),
+        gram.Spec([C("A0", True, None), C("Leaf", False, 0, []), C("Wrap", False, 0, [("e", ("cls", 0))]),
+                   C("Bag", False, 0, [("rest", ("cls", 0)), ("items", ("list", "bool"))])], 0, [1, 2, 3], True),
         # possibly-empty list at the depth frontier (the open finding's witness)
         gram.Spec([C("A0", True, None), C("L", False, 0, []),
                    C("P", False, 0, [("xs", ("ann", ("list", ("cls", 0)), ("listSize", 0, 1))), ("k", ("ann", "int", ("intRange", 0, 1)))])], 0, [1, 2]),
@@ -296,6 +305,58 @@ def corpus():
         gram.Spec([C("A0", True, None), C("K", False, 0, [("k", ("ann", "int", ("intRange", 0, 2))), ("s", ("ann", "str", ("varRange", ["x", "y"])))]),
                    C("U", False, 0, [("u", ("union", ("cls", 0), ("ann", "int", ("intList", [7, 9]))))])], 0, [1, 2]),
     ]
+
+
+def mirror_languages(h: Harness, limit):
+    """two grammars that differ ONLY in the order of two fields of one production (a plain list before / after a recursive sibling, in
+    expansion depthing): what grow creation reaches at every limit is the same set of programs up to that swap -- what a field costs
+    is charged to that field alone, not to the siblings declared after it"""
+    C = gram.ClassSpec
+
+    def spec_of(list_first: bool):
+        fields = [("items", ("list", ("cls", 1))), ("rest", ("cls", 0))]       # (a list of a field-less production: only its length is drawn)
+        return gram.Spec([C("A0", True, None), C("Leaf", False, 0, []), C("Wrap", False, 0, [("e", ("cls", 0))]),
+                          C("Bag", False, 0, fields if list_first else fields[::-1])], 0, [1, 2, 3], True)
+
+    def swap(c):
+        if isinstance(c, list):
+            c = [swap(x) for x in c]
+            if c and c[0] == "n" and c[1] == 3:
+                c = c[:4] + [c[5], c[4]]
+        return c
+    reach = {}
+    for list_first in (True, False):
+        spec = spec_of(list_first)
+        b = gram.build(spec)
+        g = b.extract()
+        mind = g.get_min_tree_depth()
+        for d in range(mind, mind + 3):
+            def make(src, d=d, g=g):
+                return TreeBasedRepresentation(g, synth.make_decider("grow", d, src, g)).create_genotype(src)
+            progs = set()
+            try:
+                for script, v in enumerate_scripts(make, limit=limit):
+                    c = zero_meta(gram.canon(v, b))
+                    # (list lengths matter, their boolean contents do not: keep the set small)
+                    progs.add(sx(c if list_first else swap(c)))
+            except InfraError:
+                progs = None
+            except Exception as e:  # noqa: BLE001
+                h.fail("create_genotype[grow]", "creation-fails-on-some-decision-sequence", f"{gram.err_kind(e)} at max depth {d} (list {'first' if list_first else 'last'})", [list_first, d])
+                progs = None
+            reach[(list_first, d - mind)] = (progs, d)
+    for k in range(3):
+        a, d1 = reach[(True, k)]
+        b_, d2 = reach[(False, k)]
+        if a is None or b_ is None:
+            continue
+        h.count("mirror-languages-compared")
+        h.seen(f"mirror:{k}", nontrivial=len(a) > 3)
+        if a != b_:
+            only = sorted(b_ - a) or sorted(a - b_)
+            h.fail("create_genotype[grow]", "valid-program-unreachable",
+                   f"expansion depthing, max depth {d1}: with the list field declared FIRST grow reaches {len(a)} programs, with the list field declared LAST "
+                   f"{len(b_)} (same programs up to the order of the two fields expected); e.g. {only[0][:160]} is reached by one only", [k, only[0]])
 
 
 def retargeted(h: Harness, limit):
@@ -326,6 +387,7 @@ def run(h: Harness):
     rng = h.rng
     limit = h.n(1500, 8000)
     retargeted(h, limit)
+    mirror_languages(h, limit)
     for spec in corpus():
         one(h, spec, limit)
     # each corpus grammar once more WITHOUT one of its productions, while the full grammar exists beside it
